@@ -372,6 +372,12 @@ func (w *World) dispatchDef(method string) *PureDef {
 		}
 	}
 	pd.body = body
+	if hasOk && w.totalMethods[method] {
+		// declared total: never panics on a non-nil receiver (each implementation is verified on its
+		// own under its node invariant, with this very assumption for the calls on its children)
+		hasOk = false
+		delete(pureByName, pd.name+"!ok")
+	}
 	if hasOk {
 		pd.okName = pd.name + "!ok"
 		pd.okBody = ok
